@@ -338,6 +338,18 @@ def preprocess(outputs: DictOfNamedArrays, target: Target) -> PreprocessResult:
     assert isinstance(new_outputs, DictOfNamedArrays)
 
     mapper = CodeGenPreprocessor(target)
+
+    # names generated for data wrappers must not collide with names that are
+    # already taken by inputs or outputs
+    from pytato.transform import InputGatherer
+    ing = InputGatherer()
+    mapper.var_name_gen.add_names({
+        input_expr.name
+        for output in new_outputs.values()
+        for input_expr in ing(output.expr)
+        if isinstance(input_expr, Placeholder | SizeParam)})
+    mapper.var_name_gen.add_names(new_outputs)
+
     new_outputs = copy_dict_of_named_arrays(new_outputs, mapper)
 
     return PreprocessResult(outputs=new_outputs,
